@@ -236,6 +236,12 @@ func (d *deepView) pathName(v ssa.Value, fr *frame, depth int) string {
 				return "decoded:" + sink
 			}
 		}
+		// a library decoding helper (generic or not) whose result is kept in a field
+		if callee := ir.Callee(x); callee != nil && d.c.P.InLib(callee) {
+			if sink := d.fieldSink(dval{x, r.fr}, 0); sink != "" {
+				return "decoded:" + sink
+			}
+		}
 		return fmt.Sprintf("call:%s@%d", ir.CallID(x), x.Pos())
 	case *ssa.Convert:
 		return d.pathName(x.X, r.fr, depth+1)
